@@ -47,15 +47,17 @@ func C15(tier string) int {
 		jobs = []job{{"memdb", 5}, {"iavl", 4}, {"prefix", 4}}
 	}
 	var mu sync.Mutex
-	var programs, ops int64
+	var programs, ops, prefixes, nontrivial int64
 	var desc []string
 	for _, j := range jobs {
-		np, no := exploreC15(j.parent, alpha, j.L, func(f c15fail) {
+		np, no, nn, nt := exploreC15(j.parent, alpha, j.L, func(f c15fail) {
 			mu.Lock()
 			defer mu.Unlock()
 			run.Report(c15sig(f), fmt.Sprintf("parent=%s program=%v: %s", f.Parent, f.Program, f.What), f)
 		})
 		programs += np
+		prefixes += nn
+		nontrivial += nt
 		ops += no
 		desc = append(desc, fmt.Sprintf("%s:L=%d:%d programs", j.parent, j.L, np))
 	}
@@ -70,6 +72,7 @@ func C15(tier string) int {
 		run.Report("C15|multi|"+strings.Fields(what)[0], fmt.Sprintf("cachemulti program %v: %s", prog, what), map[string]interface{}{"program": prog})
 	})
 	programs += mprogs
+	prefixes += mprogs
 	ops += mprogs * int64(ml)
 	desc = append(desc, fmt.Sprintf("cachemulti(2 substores, nesting<=3):L=%d:%d programs", ml, mprogs))
 	var names []string
@@ -162,6 +165,12 @@ func C15(tier string) int {
 	} else {
 		run.Set("sched_skipped", "VSCHED_BIN not set (run through ./vrun)")
 	}
+	run.Set("evaluations", programs+schedExec)
+	run.Set("distinct_nontrivial", nontrivial+int64(schedOutcomes))
+	run.Set("states", prefixes+int64(schedOutcomes))
+	run.Set("transitions", ops+schedPoints)
+	run.Set("traces_validated_against_impl", programs+schedExec)
+	run.Set("programs", programs)
 	run.Set("sched_executions", schedExec)
 	run.Set("sched_points", schedPoints)
 	run.Set("sched_distinct_outcomes", schedOutcomes)
@@ -169,7 +178,7 @@ func C15(tier string) int {
 	run.Set("sched_preemption_bound", bound)
 	run.Set("alphabet", names)
 	run.Set("jobs", desc)
-	run.Set("rule", "every contract-respecting program of exactly L operations over the alphabet (every prefix is checked while it runs), on a stack of up to 3 nested cachekv wrappers over {MemDB adapter, IAVL store, prefix store} preloaded with a,b; each program is executed on the real stores and on an overlay-of-maps model; every return value, every iteration sequence, the parent content and the final view of every level are compared")
+	run.Set("rule", "every contract-respecting program of exactly L operations over the alphabet (every prefix is checked while it runs), on a stack of up to 3 nested cachekv wrappers over {MemDB adapter, IAVL store, prefix store} preloaded with a,b; each program is executed on the real stores and on an overlay-of-maps model; every return value, every iteration sequence, the parent content and the final view of every level are compared. evaluations = programs + schedules executed (all on the real stores); states = enabled program prefixes (no state merging: a state is the operation history reaching it) + cachemulti programs + distinct observed outcomes of the schedule exploration; transitions = operations executed under the oracle + scheduling points; distinct_nontrivial = sequential programs that observe (get/has/iterate) after mutating (set/delete), all distinct by construction, + distinct schedule outcomes")
 	run.Sample(map[string]interface{}{"parent": "memdb", "program": []string{"set(\"a\\x00\",\"x\")", "open[0](\"\",\"\",asc)", "del(\"a\")", "close[0]"}})
 	run.Assume("concurrent part: store/cachekv/store.go of the working tree is instrumented at check time (sync -> controlled scheduler shim, a yield before every statement of every Store method); every interleaving of 18 scenarios (2-3 goroutines x 1-2 operations on colliding keys, parent preloaded/empty) with at most the stated number of preemptions is executed; each history is checked for linearizability against a map (porcupine), parent untouched before Write, Write applying the final view, no deadlock; the first 40 schedules of every scenario are replayed and must observe the same history; data-race freedom is decided by a separate free-running -race pass (detection, not exploration)",
 		"usage contracts: only the innermost wrapper is used while it has a child; Write/CacheWrap/discard are not issued while one of the wrapper's iterators is open; buffers passed to Set are not reused by the caller (tm-db contract)",
